@@ -154,7 +154,94 @@ def gen_groups(res):
     return groups
 
 
+def gen_failover_destroy(rng, sid):
+    """Destroy after a fail-over: a member has left, the surviving backup owner of its partitions has become their primary
+    owner and still holds its backup fragment; new writes fill both. Destroy must remove every copy of every kind."""
+    d = "c19f%d" % sid
+    keys = [dmaplib.hx("%s-k%02d" % (d, i)) for i in range(30)]
+    n = rng.choice([2, 3])
+    ops = [{"op": "put", "c": "emb%d" % rng.randrange(n), "d": d, "k": k, "v": dmaplib.hx("old")} for k in keys]
+    victim = rng.randrange(n)
+    live = [m for m in range(n) if m != victim]
+    ops += [{"op": "stop", "m": victim, "c": rng.choice(["graceful", "abrupt"])}, {"op": "waitstable", "ms": 30000}]
+    ops += [{"op": "put", "c": "emb%d" % rng.choice(live), "d": d, "k": k, "v": dmaplib.hx("new")} for k in keys]
+    ops += [{"op": "hstate", "d": d},
+            {"op": "destroy", "c": rng.choice(["emb%d" % live[0], "cc"]), "d": d},
+            {"op": "hstate", "d": d}]
+    for k in keys:
+        ops.append({"op": "get", "c": "emb%d" % rng.choice(live), "d": d, "k": k})
+    ops.append({"op": "scan", "c": "cc", "d": d})
+    ops.append({"op": "put", "c": "emb%d" % live[0], "d": d, "k": keys[0], "v": dmaplib.hx("again")})
+    ops.append({"op": "get", "c": "cc", "d": d, "k": keys[0]})
+    cluster = {"members": n, "replicas": 2, "partitions": 7, "table": 4096, "evict_workers": 1}
+    return {"id": sid, "cluster": cluster, "ops": ops}
+
+
+def judge_failover_destroy(sc, obs):
+    if len(obs) < len(sc["ops"]):
+        return ("env", "scenario aborted")
+    destroyed = False
+    last = len(sc["ops"]) - 1
+    for i, (op, ob) in enumerate(zip(sc["ops"], obs)):
+        o, r = op["op"], ob.get("r")
+        if o == "waitstable" and r != "ok":
+            return ("env", "cluster did not re-stabilise: %s" % r)
+        if o == "put" and r != "ok" and i < last - 1 and not destroyed:
+            if any(x["op"] == "stop" for x in sc["ops"][:i]) and not any(x["op"] == "waitstable" for x in sc["ops"][:i]):
+                continue
+            return ("env", "a Put of the set-up failed: %s" % r)
+        if o == "destroy":
+            if r != "ok":
+                return (i, "Destroy returned %s" % r)
+            destroyed = True
+        if destroyed and o == "hstate":
+            left = [(c[0], c[1]) for c in ob.get("copies") or []]
+            if left:
+                kinds = sorted(set("%s copy on member %d" % ("primary" if k == "p" else "backup", m) for m, k in left))
+                return (i, "after Destroy %d copies of the DMap are left: %s" % (len(left), ", ".join(kinds)))
+        if destroyed and o == "get" and i < last:
+            if r != "notfound":
+                return (i, "after Destroy key %s reads %s %s" % (op["k"][-8:], r, ob.get("val", "")))
+        if destroyed and o == "scan":
+            if r == "ok" and ob.get("keys"):
+                return (i, "after Destroy a scan yields %d keys" % len(ob["keys"]))
+        if i == last and (r != "ok" or ob.get("val") != dmaplib.hx("again")):
+            return (i, "the DMap is not usable after Destroy: Get returns %s %s" % (r, ob.get("val")))
+    return None
+
+
+def failover_part(res):
+    import memberlib
+    scs = [gen_failover_destroy(vlib.rng_for(res.seed, PID, "failover", j), 50000 + j) for j in range(3 if res.tier == "quick" else 12)]
+    results = memberlib.run_membership(scs, jobs=4)
+    bad = env = 0
+    for sc in scs:
+        r = results[sc["id"]]
+        if r.get("env", {}).get("error") or r.get("env", {}).get("flapped"):
+            env += 1
+            continue
+        v = judge_failover_destroy(sc, r["obs"])
+        if v and v[0] == "env":
+            env += 1
+            continue
+        if v:
+            bad += 1
+            if bad <= 3:
+                res.violation({"kind": "impl-violates-property", "part": "failover", "cluster": sc["cluster"], "scenario": {"ops": sc["ops"]},
+                               "failed_step": v[0], "impl_trace": r["obs"][max(0, v[0] - 2):v[0] + 1],
+                               "predicate": {"name": "Destroy removes every copy after a fail-over", "verdict": v[1]}, "seed": res.seed})
+    res.coverage["destroy_after_failover"] = {"scenarios": len(scs), "environment": env, "failures": bad,
+                                              "rule": "2-3 members, 2 copies: 30 keys, a member stops, the keys are overwritten, Destroy; every copy of every "
+                                                      "kind on every member must be gone, all keys read not-found, the scan is empty, the DMap takes new writes"}
+
+
 def run(res):
+    _run(res)
+    if not getattr(res, "harness_error", None):
+        failover_part(res)
+
+
+def _run(res):
     dmapcheck.run_dmap_check(
         res, PID, gen_groups, judge, shard=4,
         rule="pairs of DMap names incl. the collision families ('ab'+'c' vs 'a'+'bc', A vs 'dmap.'+A, prefix pairs) on clusters of 1-3 members, "
@@ -163,5 +250,25 @@ def run(res):
              "and written again; predicate = reference semantics per DMap (so B never changes), mirror, scan contents")
 
 
+def replay_failover(res, obj, path):
+    import memberlib
+    ok, out = vlib.harness_build()
+    if not ok:
+        raise vlib.CheckError(out)
+    sc = {"id": 0, "cluster": obj["cluster"], "ops": obj["scenario"]["ops"]}
+    for attempt in range(3):
+        r = memberlib.run_membership([sc])[0]
+        v = None if r.get("env", {}).get("error") else judge_failover_destroy(sc, r["obs"])
+        if v and v[0] != "env":
+            print(v[1])
+            print("VIOLATION property=%s replay=%s" % (res.pid, path))
+            return 1
+    return 0
+
+
 def replay(res, path):
+    import json as _json
+    _obj = _json.load(open(path))
+    if _obj.get("part") == "failover":
+        return replay_failover(res, _obj, path)
     return dmapcheck.replay(res, path, judge)
